@@ -421,7 +421,15 @@ class Env:
                 elif what == "eof":
                     c.peer_eof()
                 elif what == "reset":
-                    c.peer_reset()
+                    if c.eof_sent:
+                        # a selector transport stops watching the socket for reading once EOF was received and the
+                        # protocol keeps the connection open (StreamReaderProtocol does): a later RST is only noticed
+                        # by the next write, which fails
+                        if not c.fail_writes:
+                            c.fail_writes = True
+                            self.rec.emit("envFailWrites", c.cid, 1, ticks(self.loop.time()))
+                    else:
+                        c.peer_reset()
                 # network events are processed one per loop iteration by a selector loop: task wake-ups
                 # scheduled by one event run before the next event is looked at
                 await asyncio.sleep(0)
